@@ -1702,3 +1702,29 @@ for _cell in ["interval", "triangle", "tetrahedron"]:
             return _const_factor(cell, var)
 
         reg(f"const_factor_{_var}_{_cell}", "c01 c02 c07 c08 c17 c18" + (" q" if _cell != "tetrahedron" else ""), itypes=("cell", "exterior_facet"))(_mk)
+
+
+# ---- complex mode: powers of complex quantities with real-typed exponents ---------------------------
+
+def _cplx_pow(variant):
+    m = mesh("triangle")
+    V = space(m)
+    v = TestFunction(V)
+    f = ufl.Coefficient(V)
+    x = ufl.SpatialCoordinate(m)
+    if variant == "float_exp":
+        return inner(f ** 1.5, v) * dx(degree=1)
+    if variant == "half":
+        return inner(f ** 0.5 + f ** 2.0, v) * dx(degree=1)
+    if variant == "int_exp":
+        return inner(f ** 2 + f ** 3, v) * dx(degree=1)
+    if variant == "geom_exp":
+        return inner(f ** (1.0 + x[0]), v) * dx(degree=1)
+    raise ValueError(variant)
+
+
+for _var in ["float_exp", "half", "int_exp", "geom_exp"]:
+    def _mk(var=_var):
+        return _cplx_pow(var)
+
+    reg(f"cplx_pow_{_var}", "c09 q", scalar="complex128")(_mk)
